@@ -242,6 +242,19 @@ func runCase(srv *rig.Server, ci int, c *ccase) {
 			}
 			time.Sleep(50 * time.Microsecond)
 		}
+		// SubscribeToSwampEvents activates a loaded swamp in a deferred call, after the callback
+		// is registered: wait for it, a write in between would race with the subscription
+		for n > 0 {
+			loaded, active := hydra.VerifEventSendingState(hy, sname)
+			if !loaded || active {
+				break
+			}
+			if time.Now().After(dl) {
+				c.errs = append(c.errs, "loaded swamp did not start sending events after subscribe")
+				return
+			}
+			time.Sleep(50 * time.Microsecond)
+		}
 	}
 	unsubscribe := func(s int) {
 		f := streams[s]
